@@ -762,7 +762,7 @@ def run(repo, res, tier):
     from vlib import rules_declguard as DG
     # a wrapper that declares a table only when it has entries leaves the script's reader looking at a table that is not there (bash,
     # zsh: at the caller's table of the same name)
-    n_sk = DG.declguard_rule(repo, res, modules=("bash", "zsh"), advisory_modules=("fish", "pwsh"))
+    n_sk = DG.declguard_rule(repo, res, modules=("bash", "zsh", "fish"), advisory_modules=("pwsh",))
     res.floor("DECLGUARD", n_sk, 12)
     from vlib import rules_fieldcover as FC
     # the one command-id set holds the command of EVERY symbol that has one, top-level and within-word (ids are looked up in it later)
